@@ -1,9 +1,11 @@
 //! vrl-verif-harness: runs the real vrl code on generated cases and writes the line-protocol
 //! files compared against the Lean model by /verif/bin/check.
 mod c18;
+mod c27;
 mod gens;
 mod rng;
 mod sink;
+mod vrlrun;
 mod wire;
 
 use sink::Reply;
@@ -14,11 +16,13 @@ use std::path::PathBuf;
 pub fn exec(op: &str, inputs: &[String]) -> Option<Reply> {
     // first module that recognises the op answers
     None.or_else(|| c18::exec(op, inputs))
+        .or_else(|| c27::exec(op, inputs))
 }
 
 fn generate(prop: &str, sink: &mut sink::Sink, rng: &mut rng::Rng, n: u64) -> bool {
     match prop {
         "C18" => c18::generate(sink, rng, n),
+        "C27" => c27::generate(sink, rng, n),
         _ => return false,
     }
     true
